@@ -16,21 +16,22 @@ import (
 var rule = fmt.Sprintf("Struct family (types.go): Strs, Nums, Opts (attr/optional of string, int kinds, bool, float kinds, []string, []int, [][]string, map[string]string, map[string]bool, *string/*int/*bool/*float64, cty-tagged struct, []struct), Cty (cty.Value attribute), "+
 	"H0/H1/H2 (block fields as struct, *struct, []struct, []*struct whose body type has 0/1/2 labels, between two attributes), Deep (labelled blocks inside labelled blocks), Sib (repeated blocks with 1..5 labels as []struct / []*struct), WrapL0..L5/Mid (gohcl.EncodeAsBlock). "+
 	"Values: one field family varied at a time from a fixed base value. String positions (attribute, *string, list element, map value, map key, object attribute, every label, nested attribute) take ALL strings of <= 2 atoms over "+
-	"the base atoms {a, space, \", \\, $, %%, {, }, LF, TAB, é, U+1F600, ${, %%{} and the non-printable atoms {DEL, U+0085, U+00A0, U+200B, U+FEFF, U+E000, U+E0001} (1-, 2-, 3- and 4-byte runes that are not unicode.IsPrint) (%d distinct strings; all NFC); "+
-	"two-element positions (list of 2, both labels of a block, labels of 2 repeated blocks, 2 map keys) take all pairs of strings of <= 1 atom (%dx%d); "+
+	"the base atoms {a, space, \", \\, $, %%, {, }, LF, TAB, é, U+1F600, ${, %%{} and the non-printable atoms {DEL, U+0085, U+00A0, U+200B, U+FEFF, U+E000, U+E0001} (1-, 2-, 3- and 4-byte runes that are not unicode.IsPrint), plus the strings with a meaning of their own in one of the syntaxes {//, //a, /, /*, #, <<A} and the map key alphabet below (%d distinct strings; all NFC); "+
+	"two-element positions (list of 2, both labels of a block, labels of 2 repeated blocks, 2 map keys) take all pairs of strings of <= 1 atom or one syntax-special string (%dx%d); "+
 	"map keys additionally from {a, for, if, in, else, null, true, false, \"\", 'a b', 0, a.b, -, a-b, é, ${x}} singly (each first) and in all unordered pairs; ints {0, ±1, min/max of the type}; floats {0, 0.5, -1.5, 0.1, 1e20, 1e-7, max, smallest denormal}; "+
 	"slices and repeated blocks of length 0..2 (nil and empty); pointers nil/non-nil; block multiplicities as the full product One x Ptr{nil,set} x |Many| 0..2 x |PMany| 0..2; Deep shapes as the full product of 0..2 mid blocks x (0..2 leaf blocks x only{nil,set}) each. "+
 	"Sibling blocks (Sib): for each label count 1..5 ALL ordered pairs of blocks whose label tuples range over {a,b}^n (every shared-prefix length, every position of the difference, identical tuples) and for label counts <= 3 ALL ordered triples (a label that reappears after a different one); every label position of a 3/4/5-label block over the <= 1-atom strings next to a sibling sharing the other labels. "+
 	"Nil elements of []*struct are outside the domain (the encoder documents no representation for them). Every value is encoded (EncodeIntoBody by pointer and by value, EncodeAsBlock for Wrap*), parsed, decoded into a fresh value (DecodeBody, hclsimple) and compared with "+
 	"reflect.DeepEqual modulo nil == empty for slices/maps and convert-to-original-type for cty.Value; its document model is rendered independently as native text and as up to 8 JSON twins (nesting forms: per-block label nesting with objects / with arrays of objects, and the merged label tree of each run of blocks of one type "+
-	"-- blocks sharing a label prefix with their predecessor become sibling properties of one object / sibling elements of one array, blocks with identical labels one array of bodies, a reappearing label a repeated property name -- with objects / with arrays; each x literal-only / template mode) which must decode to the same value. "+
+	"-- blocks sharing a label prefix with their predecessor become sibling properties of one object / sibling elements of one array, blocks with identical labels one array of bodies, a reappearing label a repeated property name -- with objects / with arrays; each x literal-only / template mode; plus two forms in which every object representing a body carries a \"//\" comment property, which json/spec.md says is ignored) which must decode to the same value. "+
 	"Oracle 3: every single edit of the document of each value whose swept strings have <= 1 atom of the base atoms (all structural cases, all single-base-atom strings, the diagonal of the pair positions) (delete/duplicate an item, add an unexpected attribute / block, attribute<->block, add / remove a label, replace an attribute value by each of 16 literals of other types -- the latter only for the non-swept, structural values) in both syntaxes, and every single line deletion / duplication of the real encoder's output, must decode without panic; "+
 	"unexpected items and missing required attributes must give error diagnostics, a missing optional attribute must give the value with that field zero (doc.go). "+
-	"thorough: additionally, at every single string position, strings of <= 3 atoms over the base atoms and {CR, NUL, DEL, U+2028, ~, U+FFFD, U+0085, U+E0001} and strings of <= 2 atoms over the quick alphabet extended by {CR, NUL, U+2028, ~, U+FFFD, U+00AD, U+3000, U+10FFFD} (%d strings together); "+
-	"at the two-element positions all pairs of strings of <= 2 base atoms or one non-printable atom (%dx%d); all ordered triples of 4- and 5-label sibling blocks (no perturbations for these). "+
+	"Oracle 3b (expressions): %d expressions (literal null; variables holding null / unknown of string, number, bool, dynamic, list(string) and known values of every primitive and collection type; conditionals with a null branch, selected and not; operations with known / unknown results; evaluation errors) over a fixed EvalContext, each decoded with gohcl.DecodeExpression into a fresh value of each of %d Go types (string, bool, int kinds, float kinds, their pointers, slices, maps, cty struct, cty.Value), and each put in place of every attribute (any depth) of one structural value of Nums, Strs, Opts, Cty, H1, Deep, Sib and decoded with DecodeBody and hclsimple.Decode, in native syntax and as the JSON string \"${...}\": never a panic; error diagnostics iff go-cty's convert + gocty.FromCtyValue (trusted) refuse the value (null into a non-pointer, unknown, evaluation error, wrong type / range), else exactly the value they give (null => nil pointer / slice / map); a null whose type convert will not convert to a nullable target is not judged. "+
+	"thorough: additionally, at every single string position, strings of <= 3 atoms over the base atoms and {CR, NUL, DEL, U+2028, ~, U+FFFD, U+0085, U+E0001} and strings of <= 2 atoms over the quick alphabet extended by {CR, NUL, U+2028, ~, U+FFFD, U+00AD, U+3000, U+10FFFD} (%d strings together with the quick strings); "+
+	"at the two-element positions all pairs of strings of <= 2 base atoms, one non-printable atom or one syntax-special string (%dx%d); all ordered triples of 4- and 5-label sibling blocks (no perturbations for these). "+
 	"Non-trivial = the round trip succeeded (sig = generated source) or the perturbed document was decoded (sig = edit, outcome, diagnostic summaries or decoded value).",
-	len(strs(atomsQuick, 2)), len(strs(atomsQuick, 1)), len(strs(atomsQuick, 1)),
-	len(union(strs(atomsExt3, 3), strs(atomsExt, 2))), len(union(strs(atomsBase, 2), strs(atomsQuick, 1))), len(union(strs(atomsBase, 2), strs(atomsQuick, 1))))
+	len(quickS()), len(quickP()), len(quickP()), len(exprTable), len(exprTargets),
+	len(thoroughS()), len(thoroughP()), len(thoroughP()))
 
 // atomsBase: the escape-relevant characters of the native and JSON syntaxes.
 var atomsBase = []string{"a", " ", "\"", "\\", "$", "%", "{", "}", "\n", "\t", "é", "\U0001F600", "${", "%{"}
@@ -64,6 +65,25 @@ func union(a, b []string) []string {
 				out = append(out, s)
 			}
 		}
+	}
+	return out
+}
+
+// syntaxSpecial: strings that have a meaning of their own in one of the two
+// syntaxes when they are NOT inside a quoted string / in expression position:
+// "//" is the comment property of a JSON body (json/spec.md "Bodies"; "not
+// processed in this way for any other HCL constructs", so as a label or a key
+// of an object expression it is an ordinary string) and the line comment
+// introducer of the native syntax; "//a" and "/" are its neighbours (prefix
+// tests); "/*" and "#" introduce native comments; "<<A" a heredoc.
+var syntaxSpecial = []struct{ S, Slug string }{
+	{"//", "double-slash"}, {"//a", "double-slash-prefix"}, {"/", "slash"}, {"/*", "block-comment-open"}, {"#", "hash"}, {"<<A", "heredoc-introducer"},
+}
+
+func specialStrings() []string {
+	var out []string
+	for _, sp := range syntaxSpecial {
+		out = append(out, sp.S)
 	}
 	return out
 }
@@ -169,10 +189,76 @@ func gen(tier string, emit func(engine.Case) bool) {
 		}
 		genAll(b, out)
 	}
-	run(bounds{S: strs(atomsQuick, 2), P: strs(atomsQuick, 1), Trip: 3, pert: true})
-	if tier == "thorough" {
-		run(bounds{S: union(strs(atomsExt3, 3), strs(atomsExt, 2)), P: union(strs(atomsBase, 2), strs(atomsQuick, 1)), Trip: 5, pert: false})
+	if !genDecodeExpression(emit) {
+		return
 	}
+	genExprHosts(func(c engine.Case) {
+		if !emit(c) {
+			panic(stop{})
+		}
+	})
+	run(bounds{S: quickS(), P: quickP(), Trip: 3, pert: true})
+	if tier == "thorough" {
+		run(bounds{S: thoroughS(), P: thoroughP(), Trip: 5, pert: false})
+	}
+}
+
+// quickS: the strings of every single string position: all strings of <= 2
+// atoms over the quick alphabet, the syntax-special strings and the keywords /
+// non-identifiers of the map key alphabet (so that they also occur as labels,
+// attribute values and list elements).
+func quickS() []string {
+	return union(union(strs(atomsQuick, 2), specialStrings()), keyAlphabet)
+}
+
+// quickP: the strings of each component of a pair position (and of every
+// label position of 3..5-label blocks).
+func quickP() []string { return union(strs(atomsQuick, 1), specialStrings()) }
+
+func thoroughS() []string { return union(union(strs(atomsExt3, 3), strs(atomsExt, 2)), quickS()) }
+func thoroughP() []string { return union(union(strs(atomsBase, 2), strs(atomsQuick, 1)), quickP()) }
+
+// genExprHosts: one structural value per type family; every attribute of its
+// document (at any depth) is replaced by every expression of exprTable, in
+// both syntaxes (oracle 3b, exprs.go).
+func genExprHosts(emit func(engine.Case)) {
+	nums, strsV, opts := numsBase(), strsBase(), optsFull()
+	l1 := func(n, x string) L1 { return L1{N: n, X: x} }
+	p1 := l1("np", "xp")
+	q1 := l1("nq", "xq")
+	h1 := Holder[L1]{A: 1, One: l1("n0", "x"), Ptr: &p1, Many: []L1{l1("n1", "x1"), l1("n2", "x2")}, PMany: []*L1{&q1}, Z: "z"}
+	mid := Mid{K: "k", N: "n", I: 1, Leaves: []Leaf{{N: "l", V: []string{"v"}, M: map[string]string{"k": "v"}}}, Only: &Leaf{N: "o", V: []string{}, M: map[string]string{}}}
+	deep := Deep{Name: "d", Mids: []*Mid{&mid}, Last: Mid{K: "k", N: "n", I: 2}}
+	sib := Sib{A: 1, B3: []L3{{A: "p", B: "q", C: "r", X: "x"}}, B4: []*L4{{A: "p", B: "q", C: "r", D: "s", X: "x"}}, Z: "z"}
+	for _, h := range []struct {
+		typ string
+		ptr any
+	}{
+		{"Nums", &nums}, {"Strs", &strsV}, {"Opts", &opts}, {"Cty", &TCty{V: cty.StringVal("v")}},
+		{"H1", &h1}, {"Deep", &deep}, {"Sib", &sib},
+	} {
+		_, doc := toBody(reflect.ValueOf(h.ptr).Elem())
+		for _, p := range exprPerturbations(doc) {
+			for _, syn := range []string{"native", "json"} {
+				q := p
+				q.Syntax = syn
+				emit(mkCase(h.typ, "attr-expression", h.ptr, &q))
+			}
+		}
+	}
+}
+
+func numsBase() Nums {
+	i, t, f := 5, true, 2.5
+	return Nums{I: 1, I64: 2, I8: 3, U64: 4, B: true, F: 0.5, F32: 0.25, LI: []int{1, 2}, MB: map[string]bool{"k": true}, PI: &i, PB: &t, PF: &f}
+}
+
+func strsBase() Strs {
+	return Strs{S: "s0", P: sp("p0"), L: []string{"l0", "l1"}, M: map[string]string{"k0": "v0"}, O: Obj{X: "x0", Y: 7}, LL: [][]string{{"a"}}, LO: []Obj{{X: "q", Y: 1}}}
+}
+
+func optsFull() Opts {
+	return Opts{S: "s", I: 3, R: "r", B: true, F: 0.5, L: []string{"l"}, M: map[string]string{"k": "v"}, P: sp("p"), O: Obj{X: "x", Y: 2}}
 }
 
 // outFn emits one value (and its perturbations); sweep, if given, is the swept
@@ -193,9 +279,7 @@ func genAll(b bounds, out outFn) {
 }
 
 func genOpts(b bounds, out outFn) {
-	full := func() Opts {
-		return Opts{S: "s", I: 3, R: "r", B: true, F: 0.5, L: []string{"l"}, M: map[string]string{"k": "v"}, P: sp("p"), O: Obj{X: "x", Y: 2}}
-	}
+	full := optsFull
 	out("Opts", "optional-zero", &Opts{})
 	v := full()
 	out("Opts", "optional-set", &v)
@@ -221,10 +305,7 @@ func genOpts(b bounds, out outFn) {
 }
 
 func genNums(b bounds, out outFn) {
-	base := func() Nums {
-		i, t, f := 5, true, 2.5
-		return Nums{I: 1, I64: 2, I8: 3, U64: 4, B: true, F: 0.5, F32: 0.25, LI: []int{1, 2}, MB: map[string]bool{"k": true}, PI: &i, PB: &t, PF: &f}
-	}
+	base := numsBase
 	v := base()
 	out("Nums", "attr-int", &v)
 	for _, i := range []int{0, 1, -1, math.MaxInt64, math.MinInt64, 1 << 53, 1<<53 + 1} {
@@ -294,9 +375,7 @@ func genNums(b bounds, out outFn) {
 }
 
 func genStrs(b bounds, out outFn) {
-	base := func() Strs {
-		return Strs{S: "s0", P: sp("p0"), L: []string{"l0", "l1"}, M: map[string]string{"k0": "v0"}, O: Obj{X: "x0", Y: 7}, LL: [][]string{{"a"}}, LO: []Obj{{X: "q", Y: 1}}}
-	}
+	base := strsBase
 	v := base()
 	out("Strs", "attr-string", &v)
 	for _, s := range b.S {
